@@ -395,7 +395,7 @@ def search_rename(ctx: Ctx) -> SearchResult:
 	corpus_findings = len(res.findings)   # the cap on shrinking below counts generated findings only
 
 	# 2. generated programs × adversarial renamings
-	n_prog = ctx.scale(24, 110)
+	n_prog = ctx.scale(20, 110)
 	per_prog = ctx.scale(3, 5)
 	deadline = Deadline(ctx, 50, 480)
 	for n_done, (origin, src, tag) in enumerate(program_stream(ctx, rng, n_prog)):
@@ -421,6 +421,11 @@ def search_rename(ctx: Ctx) -> SearchResult:
 			related = j in (1, 2)
 			how = len(domain) if j == 0 else (rng.choice([1, 1, 2, 3]) if related else None)
 			mapping = {}
+			if j == 0 and n_done % 2 == 1:
+				# every other program: the renaming of everything REVERSES the alphabetical order of the identifiers of every kind
+				mapping = c08gen.reverse_order_renaming(domain, idents, reserved)
+				if mapping:
+					hist['renaming:order-reversing(all kinds)'] += 1
 			if j == 2 and pairs:
 				# one identifier of every kind of MEETING pair renamed into a spelling related to its partner (prefix / suffix / infix / case / joined)
 				mapping, _ = c08gen.pair_renaming(rng, pairs, domain, idents, reserved, rng.randrange(c08gen.PAIR_COMBOS))
@@ -541,8 +546,14 @@ def search_rename(ctx: Ctx) -> SearchResult:
 		except Exception:  # noqa: BLE001
 			continue
 		idents = set(c08gen.IDENT_RE.findall(src))
-		for combo in range(c08gen.PAIR_COMBOS):
-			mapping, tags = c08gen.pair_renaming(prng, pairs, domain, idents, reserved, combo)
+		combos: list[tuple[dict[str, str], list[str]]] = []
+		# lists of names emitted in an order (type parameters of classes / methods / functions, enum members, parameters, captures):
+		# the alphabetical order of every kind reversed at once, and of the module-level names (TypeVars) alone
+		for kinds in (None, ('module',), ('enum-member', 'param', 'local')):
+			rev = c08gen.reverse_order_renaming(domain, idents, reserved, kinds)
+			combos.append((rev, ['order-reversed:' + ('all-kinds' if kinds is None else '+'.join(kinds))] * len(rev)))
+		combos += [c08gen.pair_renaming(prng, pairs, domain, idents, reserved, combo) for combo in range(c08gen.PAIR_COMBOS)]
+		for mapping, tags in combos:
 			if not mapping or not legal_renaming(src, mapping, reserved):
 				hist['pairs:no-legal-renaming'] += 1
 				continue
@@ -550,7 +561,7 @@ def search_rename(ctx: Ctx) -> SearchResult:
 			seen.add(f'{hash(src)}:{sorted(mapping.items())}')
 			for t in tags:
 				hist[f"pair:{t.split(':')[0]}"] += 1
-			hist[f"pair-shape:{tags[0].split(':', 1)[1]}"] += 1
+			hist[f"pair-shape:{tags[0].split(':', 1)[1]}"] += 1 if len(tags) else 0
 			r = check_pair(real, src, mapping, base)
 			if isinstance(r, tuple) and pair_findings < 2:
 				again = Real(ctx)
@@ -572,7 +583,7 @@ def search_rename(ctx: Ctx) -> SearchResult:
 		# xself, lenq2): every class gets every class-like word on both sides; functions, members and variables rotate through theirs
 		if n_done < ctx.scale(1, 4):
 			try:
-				extra = [w for row in gen_c08_names.scan() if row['role'] != 'member' for w in row['words']]
+				extra = [w for row in gen_c08_names.scan() for w in row['words'] if row['role'] != 'member' or w.startswith('__')]
 			except Exception:  # noqa: BLE001
 				extra = []
 			stems = c08gen.affix_stems(extra)
@@ -609,7 +620,8 @@ def search_rename(ctx: Ctx) -> SearchResult:
 		'member-spelling programs: one user class whose methods / field are iterated by for statements and comprehensions, called and assigned, renamed INTO every word set of '
 		'Generated/C08Names.lean (items/keys/values, list / dict / str method names, cvar verbs, name / value) — library names are reserved for everything but members; '
 		'meeting-pair programs: outer variables declared before variables first assigned in nested if / for / while blocks, loop variables, lambdas and a closure with parameters beside '
-		'captured variables, a class with several members — one identifier of every kind of pair renamed into a proper prefix / suffix / infix / case variant / joined form of (or from) its partner, all 18 shape x direction combinations per program; on the same programs (a base class with a subclass among them) affix renamings: every class gets every class-like reserved word '
+		'captured variables, a class with a subclass (constructors that call own methods, super().__init__ followed by an own method), type parameters of a generic class / method / class method / free function, an enum — '
+		'the alphabetical order of the identifiers of every kind reversed; one identifier of every kind of pair renamed into a proper prefix / suffix / infix / case variant / joined form of (or from) its partner, all 18 shape x direction combinations per program; on the same programs (a base class with a subclass among them) affix renamings: every class gets every class-like reserved word '
 		'(Enum, Iterator, ItemsView, const, list, …) as a proper suffix and as a proper prefix, functions / members / variables rotate through self, cls, init, len, items, …')
 	return res
 
